@@ -18,6 +18,7 @@ import (
 	"golang.org/x/image/webp"
 
 	"verif/harness/concrete"
+	"verif/harness/gen"
 	"verif/harness/obs"
 )
 
@@ -35,6 +36,36 @@ type cEvent struct {
 	Raw     *obs.Obs         `json:"raw,omitempty"`
 	Len     int              `json:"len"`
 	Shape   string           `json:"shape"`
+}
+
+// delivery schedules rotated over the container cases (C08 owns the exhaustive treatment)
+var containerScheds = []obs.Sched{obs.Full, obs.Full, {Name: "fixed3", Sizes: []int{3}, Cyclic: true}, obs.Full,
+	{Name: "fixed7", Sizes: []int{7}, Cyclic: true}, {Name: "fixed1", Sizes: []int{1}, Cyclic: true}, {Name: "full+eof", WithErr: true}}
+
+var (
+	disturbOnce sync.Once
+	disturbData [][]byte
+)
+
+// disturbers are three files with (multi-chunk) profiles of their own, loaded after a result
+// has been obtained to see whether that result survives.
+func disturbers() [][]byte {
+	disturbOnce.Do(func() {
+		// a two-byte profile in two chunks first: it fits whatever capacity a recycled buffer
+		// has, so a result that aliases recycled storage is overwritten in place
+		tiny, _ := gen.BuildJPEG([]gen.JSeg{gen.SOI(), gen.ICCSeg(1, 2, []byte{0xEE}), gen.ICCSeg(2, 2, []byte{0xDD}),
+			gen.SOF(0xC0, 8, 5, 6, gen.StdComps(3, 0x11)), gen.SOS(3, gen.EntropyBytes(20, 1)), gen.EOI()})
+		prof := gen.SimpleProfile(9000, "disturber", true, 77)
+		parts := gen.SplitICC(prof, 3)
+		j, _ := gen.BuildJPEG([]gen.JSeg{gen.SOI(), gen.ICCSeg(1, 3, parts[0]), gen.ICCSeg(2, 3, parts[1]), gen.ICCSeg(3, 3, parts[2]),
+			gen.SOF(0xC0, 8, 5, 6, gen.StdComps(3, 0x11)), gen.SOS(3, gen.EntropyBytes(20, 1)), gen.EOI()})
+		p, _ := gen.BuildPNG([]gen.PNGChunk{gen.IHDR(3, 4, 8, 2, 0), gen.ICCP("d", 0, gen.Deflate(prof, 6)), gen.Chunk("IDAT", gen.Payload(20, 2, false)), gen.Chunk("IEND", nil)})
+		w, _ := gen.BuildWebP([]gen.WChunk{gen.VP8X(gen.VP8XICC, 5, 6), gen.WC("ICCP", prof), gen.VP8(5, 6, 0, 0, gen.VP8Body(20))}, -1)
+		tp, _ := gen.BuildPNG([]gen.PNGChunk{gen.IHDR(3, 4, 8, 2, 0), gen.ICCP("t", 0, gen.Deflate([]byte{0xEE, 0xDD}, 6)), gen.Chunk("IDAT", gen.Payload(20, 2, false)), gen.Chunk("IEND", nil)})
+		tw, _ := gen.BuildWebP([]gen.WChunk{gen.VP8X(gen.VP8XICC, 5, 6), gen.WC("ICCP", []byte{0xEE, 0xDD}), gen.VP8(5, 6, 0, 0, gen.VP8Body(20))}, -1)
+		disturbData = [][]byte{tiny, tp, tw, j, p, w}
+	})
+	return disturbData
 }
 
 func stdConfig(fmtName string, data []byte) (int, int, error) {
@@ -127,7 +158,18 @@ func containersCmd(args []string) error {
 				// the source presents itself as a bare reader, or the way *bytes.Reader / *os.File do
 				// (at offset 0, or embedded after foreign bytes): the outcome may not depend on it
 				shape := []string{"plain", "rich0", "rich5"}[(id+v)%3]
-				o := obs.Run(loader, obs.NewSource(b.Data, -1, nil, obs.Full).WithShape(shape), false, false)
+				sched := containerScheds[(id/3+v)%len(containerScheds)]
+				o := obs.Run(loader, obs.NewSource(b.Data, -1, nil, sched).WithShape(shape), false, false)
+				// what a load returned stays what it was while the library goes on to load other
+				// files (its results may not alias storage the library reuses)
+				if d := o.ICCData(); len(d) > 0 {
+					for _, dist := range disturbers() {
+						obs.Run("auto", obs.NewSource(dist, -1, nil, obs.Full), false, false)
+					}
+					if obs.HashBytes(d) != o.ICCHash {
+						o.ICC = "mutated-after-later-loads"
+					}
+				}
 				ev := cEvent{ID: id, Variant: v, Fmt: c.Fmt, Loader: loader, File: c.FileRaw, Len: len(b.Data), Shape: shape}
 				ev.Obs = concrete.Project(c, v, &o)
 				if o.Panic != "" {
